@@ -232,3 +232,37 @@ Proof.
   - pose proof (mutation_serial (Some sigma) fuel root Nd X) as S. unfold run in S. rewrite E in S. exact S.
   - intros Nn. eapply mutation_key_order; eauto.
 Qed.
+
+(** without an idle handler nothing ever waits: every run returns (with the error of [wait] as
+    soon as a future is not ready) *)
+Lemma wait_loop_none fuel (f : fut) s : exists r s', wait_loop None fuel f s = Done (r, s').
+Proof. destruct fuel, f; simpl; eauto. Qed.
+
+Lemma wait_none fuel (f : fut) s : exists r s', wait None fuel f s = Done (r, s').
+Proof.
+  destruct f as [r|c]; unfold wait; [eauto|]. cbn [Map].
+  destruct (poll (Pending (CMap wait_fn c)) s) as [f1 s1]. apply wait_loop_none.
+Qed.
+
+Lemma drain_loop_none fuel s : exists s', drain_loop None fuel s = Done s'.
+Proof. destruct fuel; cbn [drain_loop]; destruct (all_recv (recv_all s)); eauto. Qed.
+
+Lemma serial_loop_none drain fuel : forall l slots i s,
+  exists e sl s', serial_loop drain None fuel l slots i [] s = Done (e, sl, s').
+Proof.
+  induction l as [|[key fp] tl IH]; intros slots i s; [simpl; eauto|].
+  rewrite (serial_loop_cons fuel). unfold root_iter.
+  destruct (exec_field fp [PKey key] s) as [f s1]. destruct (catch_if_nullable (fp_nn fp) f s1) as [f1 s2].
+  destruct (wait_none fuel f1 s2) as (r & s3 & ->). simpl.
+  destruct drain.
+  - destruct (drain_loop_none fuel s3) as (s4 & ->). destruct r; eauto.
+  - destruct r; eauto.
+Qed.
+
+Theorem mutation_terminates_no_handler drain fuel root :
+  exists r, run_gen drain None Mutation fuel root = Done r.
+Proof.
+  unfold run_gen, exec_sel_serial.
+  destruct (serial_loop_none drain fuel root (repeat None (length root)) 0 st0) as (e & sl & s' & ->).
+  destruct e; simpl; eauto.
+Qed.
